@@ -61,8 +61,16 @@ func c09KeysForwarded(c *core.Ctx) {
 				case *ast.CallExpr:
 					for j, a := range x.Args {
 						if core.VarOf(info, a) == pv {
+							// a list is handed on whole: `keys...` into a variadic parameter, or as it is
+							// into a parameter that is a slice
 							if !list || (x.Ellipsis.IsValid() && j == len(x.Args)-1) {
 								used = true
+							} else if fn := core.Callee(info, x); fn != nil {
+								if fs := fn.Type().(*types.Signature); j < fs.Params().Len() && !(fs.Variadic() && j >= fs.Params().Len()-1) {
+									if _, isSlice := fs.Params().At(j).Type().(*types.Slice); isSlice {
+										used = true
+									}
+								}
 							}
 						}
 					}
